@@ -581,6 +581,25 @@ def scope_cases(tier):
                                     suite[use_phase] = 1
                         yield {'order': order, 'act': act, 'items': items, 'suite': suite,
                                'tag': 'suite/%s/%s/%s' % (def_phase, use_phase, where)}
+    # a symbol is not visible inside its own definition ("available to all instructions FOLLOWING the definition"),
+    # neither directly nor through a later symbol
+    for t in ALL_TYPES:
+        for ph in ITEM_PHASES:
+            for variant in ('direct', 'in-string', 'mutual'):
+                items = {p: [] for p in ITEM_PHASES}
+                if variant == 'direct':
+                    items[ph].append(_def(t, 'X', same_type_wrapper(t, 'X')))
+                elif variant == 'in-string':
+                    if t not in DATA_TYPES:
+                        continue
+                    items[ph].append(_def('string', 'X', S('x', R('X'), q='s')) if t == 'string' else
+                                     _def(t, 'X', [S('x', R('X'), q='s')] if t == 'list' else
+                                          {'rel': 'tmp', 'name': S('x/', R('X'))}))
+                else:
+                    items[ph].append(_def(t, 'X', same_type_wrapper(t, 'Y')))
+                    items[ph].append(_def(t, 'Y', same_type_wrapper(t, 'X')))
+                yield {'order': orders[(len(t) + len(ph)) % len(orders)], 'act': None, 'items': items,
+                       'tag': 'self-reference/%s/%s/%s' % (t, ph, variant)}
     # duplicates: same name twice (same or different type), anywhere
     for p1, p2 in itertools.combinations_with_replacement(ITEM_PHASES, 2):
         for t2 in ['string', 'list', 'line-matcher']:
